@@ -92,6 +92,9 @@ func (r *DescribeConfigsResponse) decode(pd packetDecoder, version int16) (err e
 		return err
 	}
 
+	if n < 0 {
+		return errInvalidArrayLength
+	}
 	r.Resources = make([]*ResourceResponse, n)
 	for i := 0; i < n; i++ {
 		rr := &ResourceResponse{}
@@ -182,6 +185,9 @@ func (r *ResourceResponse) decode(pd packetDecoder, version int16) (err error) {
 		return err
 	}
 
+	if n < 0 {
+		return errInvalidArrayLength
+	}
 	r.Configs = make([]*ConfigEntry, n)
 	for i := 0; i < n; i++ {
 		c := &ConfigEntry{}
@@ -275,6 +281,9 @@ func (r *ConfigEntry) decode(pd packetDecoder, version int16) (err error) {
 		n, err := pd.getArrayLength()
 		if err != nil {
 			return err
+		}
+		if n < 0 {
+			return errInvalidArrayLength
 		}
 		r.Synonyms = make([]*ConfigSynonym, n)
 
